@@ -36,9 +36,14 @@ FXP = {'fxp63': (6, 3), 'fxp82': (8, 2)}
 
 
 MULT = [1]      # number of mask contributions in the current configuration
+# extension-field targets (degree > 1): only values below the characteristic, which are constants of the field
+EXT = {'ext2_4': (2, 4), 'ext3_2': (3, 2), 'ext7_2': (7, 2)}
+KNOWN_EXT = '!convert:extension-field-target'
 
 
 def sectype(mpc, name):
+    if name in EXT:
+        return mpc.SecFld(char=EXT[name][0], ext_deg=EXT[name][1])
     if name in INT:
         return mpc.SecInt(INT[name])
     if name in FXP:
@@ -133,6 +138,16 @@ def expected(src, dst, v):
     return ('exact', x)
 
 
+def compare_ext(got, want):
+    # Known region (DESIGN 10): _convert() subtracts the integer codes of mask and masked value in the target field, which is
+    # only meaningful for prime fields; for a target of extension degree > 1 the result is garbage (mask dependent)
+    try:
+        ok = int(got.value) == want[1]
+    except Exception:
+        ok = False
+    return True if ok else KNOWN_EXT
+
+
 def compare(got, want):
     kind = want[0]
     if kind == 'exact':
@@ -159,7 +174,13 @@ def build(mpc, pairs=None):
                                                    ({0.125, -0.125, 0.5, -0.5} & set(dom)))
             ops[f'{src}>{dst}'] = exact.Op(1, (lambda a, D=D: mpc.convert(a, D)), (lambda v, src=src, dst=dst: expected(src, dst, v[0])),
                                            compare, make=S, domain=dom, mp_domain=mpd, maxpts=4)
-        # list form, two elements at once
+        for dst, (p, d) in EXT.items():
+            if src not in ('int5', 'fld11u', 'fxp63'):
+                continue
+            D = sectype(mpc, dst)
+            small = [v for v in range(p)]
+            ops[f'{src}>{dst}'] = exact.Op(1, (lambda a, D=D: mpc.convert(a, D)), (lambda v: ('ext', int(v[0]))),
+                                           compare_ext, make=S, domain=small, mp_domain=small[:2], maxpts=2)
     return ops
 
 
@@ -177,6 +198,7 @@ def jobs(tier, seed):
     # many parties: the conversion mask is a sum of C(m,t) PRF outputs; its bound must shrink accordingly (all-max pattern)
     for (m, t) in ((7, 3), (6, 2)) if tier == 'quick' else ((7, 3), (6, 2), (7, 2), (6, 1)):
         out.append(dict(engine='mp', m=m, t=t, no_prss=False, part=0, parts=1, tier=tier, seed=seed, wide=True))
+    out.append(dict(engine='mp', m=3, t=1, no_prss=False, part=0, parts=1, tier=tier, seed=seed, ext=True))
     out.sort(key=lambda j: -(j.get('m', 0)))
     return out
 
@@ -187,13 +209,15 @@ WIDE = ('int3>int5', 'int5>int10', 'int3>fxp63', 'int5>int6', 'fxp63>fxp82', 'in
 def run_job(job):
     if job['engine'] == 'sp':
         return exact.run_sp('C06', job, build)
-    names = None
+    names = [n for n in build(exact.Dummy()) if n.split('>')[1] not in EXT]
     MULT[0] = math.comb(job['m'], job['t']) if not job['no_prss'] else job['t'] + 1
+    if job.get('ext'):
+        return exact.run_mp('C06', job, build, base_k=4, batch=12, names=[n for n in build(exact.Dummy()) if n.split('>')[1] in EXT], patterns=('seeded',))
     if job.get('wide'):
         return exact.run_mp('C06', job, build, base_k=4, batch=12, names=WIDE, patterns=('max', 'seeded'))
     if job['tier'] == 'quick':
         # field -> field goes through SecInt(32) and is expensive: a few pairs only in the quick tier
-        names = [n for n in build(exact.Dummy()) if not (n.split('>')[0] in FLD and n.split('>')[1] in FLD) or n in ('fld11u>fld13s', 'fld13s>fld101u')]
+        names = [n for n in names if not (n.split('>')[0] in FLD and n.split('>')[1] in FLD) or n in ('fld11u>fld13s', 'fld13s>fld101u')]
     return exact.run_mp('C06', job, build, base_k=4, batch=16, names=names)
 
 
